@@ -238,4 +238,13 @@ pub const HPKE_RFC: u32 = 9180;
         buf.extend_from_slice(&tag.0);
 
         Ok(buf)""")]),
+    dict(name='b-pskbundle-slice-patterns', props=['C15'],
+         edits=[(OPMODE, """        if (psk.is_empty() && psk_id.is_empty()) || (!psk.is_empty() && !psk_id.is_empty()) {
+            Ok(PskBundle { psk, psk_id })
+        } else {
+            Err(HpkeError::InvalidPskBundle)
+        }""", """        match (psk, psk_id) {
+            ([], [_, ..]) | ([_, ..], []) => Err(HpkeError::InvalidPskBundle),
+            _ => Ok(PskBundle { psk, psk_id }),
+        }""")]),
 ]
